@@ -413,6 +413,8 @@ pub fn run(ctx: &mut Ctx) {
     }
     ctx.evaluations += hist_cases;
     ctx.extra.insert("history_cases".into(), json!(hist_cases));
+    // comment ranges come from the lexer's idea of where a comment ends: exhaustive differential sweep
+    crate::lexseg::run_into(ctx, if thorough { 7 } else { 6 });
 
     // stdio conformance: a systematic subset of the documents through the real binary
     let stride = if thorough { 97 } else { 7 };
@@ -464,6 +466,7 @@ pub fn replay(case: &Value) -> Result<String, String> {
                 Some((s, d)) => Err(format!("{} :: {}", key_for(v, &s), d)),
             }
         }
+        Some("lexical-structure") => crate::lexseg::replay(case["text"].as_str().ok_or("text")?),
         Some("history") => {
             let (t1, t2) = (case["t1"].as_str().ok_or("t1")?, case["t2"].as_str().ok_or("t2")?);
             let fresh = tokens_for(t2);
